@@ -49,10 +49,28 @@ def slot_times(times):
     slots.append(times[-1] + 0.5)
     # twin slots (index + 4N+3): the same places a quarter of a microsecond later - distinct epochs that
     # any rounding / tolerance-based merging of time stamps would wrongly identify
-    return slots + [s + TWIN_EPS for s in slots]
+    # then 4N+3 slots one ulp BEFORE and 4N+3 slots one ulp AFTER each base slot (index + 2(4N+3), + 3(4N+3)): a stamp
+    # that differs from a row time in the last bit (0.3 against 3 * 0.1) is a different epoch on a definite side of it
+    return slots + [s + TWIN_EPS for s in slots] + [float(np.nextafter(s, -np.inf)) for s in slots] + \
+        [float(np.nextafter(s, np.inf)) for s in slots]
 
 
 TWIN_EPS = 2.0 ** -22
+
+
+def ulp_family(n):
+    """Samples one ulp before / after every IMU (trajectory) epoch: singles for every sensor, and the pairs
+    {sample on the epoch, sample one ulp beside it} for P/P and P/V."""
+    ns = 4 * n + 3
+    epochs = [1 + 4 * i for i in range(n)] + [4 * n + 1]
+    out = []
+    for e in epochs:
+        for side in (2, 3):
+            for k in SENSORS:
+                out.append([(e + side * ns, k)])
+            out.append([(e, 'P'), (e + side * ns, 'P')])
+            out.append([(e, 'P'), (e + side * ns, 'V')])
+    return out
 
 
 def twin_family(n):
